@@ -98,13 +98,13 @@ def flags_of(op):
 
 
 # --------------------------------------------------------------------------------------------------- generation
-def _gen_request(rnd, rid, cond_keys, package_keys):
+def _gen_request(rnd, rid, cond_keys, package_keys, max_depth=4):
     table = {}
     for key in package_keys:
         ast = gen_wellformed(rnd, rnd.randint(0, 2), cond_keys, package_keys, p_pkg=0.15, p_ub=0.2)
         table[key] = render(ast, rnd, "upper")
     is_ahb = rnd.random() < 0.45
-    depth = rnd.randint(1, 4)
+    depth = rnd.randint(1, max_depth)
     if is_ahb:
         roll = rnd.random()
         if roll < 0.25:
@@ -140,8 +140,9 @@ def generate(seed, tier="quick"):
     if rnd.random() < 0.1:  # INT allows leading zeros and zero
         cond_keys.append(rnd.choice(["007", "0", "0932"]))
         package_keys.append(rnd.choice(["01P", "0P", "0010P"]))
-    n_requests = rnd.choice([1, 1, 1, 2, 2, 3])
-    requests = [_gen_request(rnd, f"r{i}", cond_keys, package_keys) for i in range(n_requests)]
+    big = tier == "thorough" and seed % 4 == 0  # deeper bounds for a quarter of the thorough runs
+    n_requests = rnd.choice([2, 3, 4, 5] if big else [1, 1, 1, 2, 2, 3])
+    requests = [_gen_request(rnd, f"r{i}", cond_keys, package_keys, 6 if big else 4) for i in range(n_requests)]
     # the same process serves several callers with *different* package tables: one after the other, or at once
     sequential = rnd.random() < 0.5
     for index, request in enumerate(requests):
